@@ -371,6 +371,9 @@ func (c *Ctx) Implies(a, b *Term) *Term {
 	if isFalse(b) {
 		return c.Not(a)
 	}
+	if a == b {
+		return c.True()
+	}
 	return c.mk("=>", SBool, a, b)
 }
 
